@@ -62,6 +62,25 @@ def hist_to_stimulus(hist, sid, storage, seed, table):
     return {"id": sid, "storage": storage, "sender": sender, "receiver": receiver, "script": script, "seed": seed + sid}
 
 
+def same_waker(prog):
+    """the receiver program with every poll after the first turned into a re-poll with the same waker object"""
+    out, seen = [], False
+    for op in prog:
+        out.append("repoll" if (op == "poll" and seen) else op)
+        seen = seen or op == "poll"
+    return out
+
+
+def with_same_waker_variants(stimuli, first_id):
+    """for every stimulus whose receiver polls at least twice: a copy (same schedule) that re-polls with the same waker"""
+    out = list(stimuli)
+    for st in stimuli:
+        if st["receiver"].count("poll") >= 2:
+            v = dict(st, id=first_id + len(out), receiver=same_waker(st["receiver"]))
+            out.append(v)
+    return out
+
+
 def leaves(hists):
     """keep histories that are not a proper prefix of another one (they cover the edges of their prefixes)"""
     keys = set()
@@ -85,6 +104,9 @@ def random_stimuli(n, seed, storages, first_id=1):
         for _ in range(rng.randint(0, 4)):
             prog.append(rng.choice(["poll", "poll", "is_ready", "into_value"]))
         prog.append(rng.choice(["drop", "into_value", "poll"]))
+        # every third program re-polls with the SAME waker object (Waker::will_wake is true) instead of a fresh one
+        if i % 3 == 2:
+            prog = same_waker(prog)
         st = {"id": first_id + i, "storage": rng.choice(storages), "sender": rng.choice(["send", "drop"]),
               "receiver": prog, "seed": rng.randrange(1 << 30)}
         if rng.random() < 0.4:
